@@ -24,9 +24,12 @@ SMALL_PRIMES = [p for p in range(2, 2000) if all(p % q for q in range(2, int(p *
 OTHER = [101, 103, 107, 109, 113, 127, 131, 137, 139, 149, 151, 157, 163, 167, 173, 179, 181, 191, 193, 197, 199, 211,
          223, 227, 229, 233, 239, 241, 251, 257, 263, 269]          # harness: other_primes(n) = first n+2 (max 32)
 
-INT_HISTS = ["fresh", "reuse", "copycold", "copywarm", "copy2", "assigncold", "assignwarm", "freshtt"]
-DOM_HISTS = ["fresh", "reuse", "copycold", "copywarm", "copy2", "assigncold", "assignwarm", "setcold", "setwarm"]
-FIX_HISTS = ["fresh", "reuse", "assigncold", "assignwarm"]
+INT_HISTS = ["fresh", "reuse", "copycold", "copywarm", "copy2", "copymod", "assigncold", "assignwarm", "assignsame", "freshtt"]
+DOM_HISTS = ["fresh", "reuse", "copycold", "copywarm", "copy2", "copymod", "assigncold", "assignwarm", "assignsame",
+             "setcold", "setwarm", "setsame", "setback"]
+FIX_HISTS = ["fresh", "reuse", "assigncold", "assignwarm", "assignsame"]
+SAME_LEN_HISTS = ("assignsame", "setsame", "setback")      # the unrelated system has the SAME number of moduli
+LIFT_MODES = ["atonce", "prepared", "copies"]
 POLY_HISTS = ["fresh", "reuse", "copycold", "copywarm", "copy2"]
 POLY_DOMS = ["mi64", "mdouble", "mi32", "mu32"]
 DOMS = ["mdouble", "mi64", "mu64", "mi32", "mint", "mfloat", "mu32", "mont32", "mru7", "mlog16", "mb64", "mbd"]
@@ -250,8 +253,31 @@ def gen_moduli(rng, n, maxp, style, pred=None):
     return ps
 
 
+def boundary_ints(rng, ps, count):
+    """integers at the case splits of a conversion: 0, +-1, each modulus and its neighbours and multiples, partial products,
+    the full product and its neighbours, and the negatives of all of these"""
+    P = prod(ps)
+    cand = [0, 1, -1, P, P - 1, P + 1, -P, -P - 1, -P + 1, 2 * P, P // 2]
+    idx = list(range(len(ps)))
+    rng.shuffle(idx)
+    for i in idx[:6]:
+        p = ps[i]
+        cand += [p, p - 1, p + 1, -p, 2 * p, -2 * p, p * rng.range(2, 9), -p * rng.range(2, 9), P - p, P // p, p * p]
+    part = 1
+    for p in ps[:-1]:
+        part *= p
+        if rng.chance(1, 2):
+            cand += [part, part - 1, part + 1, -part]
+    rng.shuffle(cand)
+    first = [ps[rng.below(len(ps))]]                         # always: an integer equal to one of the moduli
+    return (first + cand)[:count]
+
+
 def gen_residues(rng, ps, allow_out_of_range_tail=False):
-    mode = rng.below(8)
+    mode = rng.below(10)
+    if mode >= 8:                                            # residues of a boundary integer (value 0, p_i, prod-1, ...)
+        v = boundary_ints(rng, ps, 1 + rng.below(6))[-1]
+        return [v % p for p in ps]
     rs = []
     for i, p in enumerate(ps):
         if mode == 0:
@@ -266,6 +292,12 @@ def gen_residues(rng, ps, allow_out_of_range_tail=False):
             r = r + p * rng.range(-3, 3)        # residu[i], i >= 1, is reduced by the code (mod) ; residu[0] is not
         rs.append(r)
     return rs
+
+
+def gen_as(rng, ps, count):
+    """the integers converted by RingToRns in one case: boundary values first, then structured random ones"""
+    nb = max(1, (2 * count) // 3)
+    return boundary_ints(rng, ps, nb) + [gen_a(rng, ps) for _ in range(count - nb)]
 
 
 def gen_a(rng, ps):
@@ -391,20 +423,23 @@ def main(tier, replay=None):
     quick = tier == "quick"
     cases = []   # dicts: kind, impl line, model line, meta
 
-    def other(n):
-        return OTHER[:min(n + 2, 32)]
+    def other(n, hist):
+        return OTHER[:min(n if hist in SAME_LEN_HISTS else n + 2, 32)]    # harness: other_primes()
 
-    def add_sys(kind, hist, sub, ps, rs, a):
+    def add_sys(kind, hist, sub, ps, rs, al):
         n = len(ps)
-        il = "%s %s %s %d %s %s %d" % (kind, hist, sub, n, " ".join(map(str, ps)), " ".join(map(str, rs)), a)
-        o = other(n)
+        body = "%d %s %s %d %s" % (n, " ".join(map(str, ps)), " ".join(map(str, rs)), len(al), " ".join(map(str, al)))
+        il = "%s %s %s %s" % (kind, hist, sub, body)
+        o = other(n, hist)
         if kind == "int":
-            ml = "int %s %s %d %s %s %d %d %s" % (facts["cksrc"], hist, n, " ".join(map(str, ps)), " ".join(map(str, rs)), a, len(o), " ".join(map(str, o)))
+            ml = "int %s %s %s %d %s" % (facts["cksrc"], hist, body, len(o), " ".join(map(str, o)))
         elif sub in BALANCED:
             ml = "skip"               # balanced representatives: specification oracle only
         else:
-            ml = "rns %s %d %s %s %d %d %s" % (hist, n, " ".join(map(str, ps)), " ".join(map(str, rs)), a, len(o), " ".join(map(str, o)))
-        cases.append({"kind": kind, "hist": hist, "sub": sub, "ps": ps, "rs": rs, "a": a, "impl": il, "model": ml})
+            ml = "rns %s %s %d %s" % (hist, body, len(o), " ".join(map(str, o)))
+        cases.append({"kind": kind, "hist": hist, "sub": sub, "ps": ps, "rs": rs, "al": al, "impl": il, "model": ml})
+
+    nas = 6 if quick else 12
 
     mlcap = 12 if quick else 33
     lens_small = [1, 1, 2, 2, 3, 3, 4, 5, 6, 7, 8, 9, 12, 16, 17]
@@ -429,7 +464,7 @@ def main(tier, replay=None):
                     n = rng.range(2, mlcap)      # cost of the extracted model ~ n^2 * bits^2 on the inductive Z
                 ps = gen_moduli(rng, n, maxp, style)
                 rs = gen_residues(rng, ps, allow_out_of_range_tail=(tt == "Integer"))
-                add_sys("int", hist, tt, ps, rs, gen_a(rng, ps))
+                add_sys("int", hist, tt, ps, rs, gen_as(rng, ps, nas if n <= 17 else 3))
     # ---- RNSsystem<Integer, Domain>
     for rnd in range(rounds):
         for hist in DOM_HISTS:
@@ -448,10 +483,11 @@ def main(tier, replay=None):
                     n = rng.range(2, mlcap)
                 ps = gen_moduli(rng, n, maxp, style, dom_pred(dom))
                 rs = gen_residues(rng, ps)
-                add_sys("rns", hist, dom, ps, rs, gen_a(rng, ps))
+                add_sys("rns", hist, dom, ps, rs, gen_as(rng, ps, nas if n <= 17 else 3))
     # the documented example of the known copy defect
-    add_sys("int", "copycold", "Integer", [3, 5, 7], [1, 2, 3], 100)
-    add_sys("int", "fresh", "Integer", [3, 5, 7], [1, 2, 3], 100)
+    add_sys("int", "copycold", "Integer", [3, 5, 7], [1, 2, 3], [100, 7, 105, 0, -5])
+    add_sys("int", "fresh", "Integer", [101, 7], [0, 3], [101, 7, 707, 706, -101])
+    add_sys("rns", "setsame", "mi64", [11, 13, 17], [4, 5, 6], [11, 2431, 0])
     # ---- RNSsystemFixed<Integer>
     for rnd in range(20 if quick else 150):
         for hist in FIX_HISTS:
@@ -582,16 +618,19 @@ def main(tier, replay=None):
                 chk.fail_input(cls + " (process died or threw)", "obtained by %s" % c.get("hist", ""), c, "a result", il,
                                "the implementation crashed / threw on this input")
             elif kind in ("int", "rns"):
-                ps, rs, a = c["ps"], c["rs"], c["a"]
+                ps, rs, al = c["ps"], c["rs"], c["al"]
                 n = len(ps)
+                a = al[0]
+                PP = prod(ps)
                 V = crt_oracle(ps, rs)
                 if c["sub"] in BALANCED:
                     # the same law in the representation of the domain: digits, residues and value of least absolute value
                     Vb = bal(V, prod(ps))
                     cko = [bal(x, p) for x, p in zip(ck_oracle(ps), ps[1:])]
-                    exp = [bal_digits(ps, Vb), [Vb], [bal(a, p) for p in ps], cko, [Vb], [n] + ps, ps, cko, [Vb]]
+                    exp = [bal_digits(ps, Vb), [Vb], [bal(x, p) for x in al for p in ps], [bal(x, PP) for x in al], cko, [Vb], [n] + ps, ps, cko, [Vb]]
                 else:
-                    exp = ([mixed_digits(ps, V), [V]] + ([[prod(ps)]] if kind == "int" else []) + [[a % p for p in ps], ck_oracle(ps), [V]]
+                    exp = ([mixed_digits(ps, V), [V]] + ([[PP]] if kind == "int" else [])
+                           + [[x % p for x in al for p in ps], [x % PP for x in al], ck_oracle(ps), [V]]
                            + [[n] + ps, ps, ck_oracle(ps), [V]])
                 exp_toks = flat(exp)
                 got = [ints(g) for g in groups(il)]
@@ -599,9 +638,9 @@ def main(tier, replay=None):
                 if got != exp:
                     spec_ok = False
                     names = ["RnsToMixedRadix", "RnsToRing", "product"] if kind == "int" else ["RnsToMixedRadix", "RnsToRing"]
-                    names += ["RingToRns", "Reciprocals", "RnsToRing(second call)", "NumOfPrimes/ith", "Primes", "reciprocal(i)", "MixedRadixToRing"]
+                    names += ["RingToRns", "RnsToRing(RingToRns(a))", "Reciprocals", "RnsToRing(second call)", "NumOfPrimes/ith", "Primes", "reciprocal(i)", "MixedRadixToRing"]
                     bad = [names[j] for j in range(min(len(exp), len(got))) if got[j] != exp[j]] or ["shape"]
-                    if kind == "rns" and c["sub"] == "mru7" and bad == ["RingToRns"] and abs(a) >= (1 << 128):
+                    if kind == "rns" and c["sub"] == "mru7" and bad == ["RingToRns"] and max(abs(x) for x in al) >= (1 << 128):
                         # root cause outside the anchored code: Modular<ruint<K>>::init(Element&, const Integer&) truncates the
                         # Integer to the element width before reducing (known finding of C04, "wider-than-element")
                         chk.fail_input(SITE_RU, KLASS_RU, c, exp, il, "residues of an integer wider than the element type are wrong")
@@ -612,7 +651,7 @@ def main(tier, replay=None):
             elif kind == "fixed":
                 ps, rs = c["ps"], c["rs"]
                 V = crt_oracle(ps, rs)
-                exp_toks = [str(V)]
+                exp_toks = [str(V), str(V)]
                 chk.count((kind, c["hist"], tuple(ps), tuple(rs)), nontrivial=(len(ps) >= 2 and V > 1))
                 if itoks != exp_toks:
                     spec_ok = False
@@ -620,16 +659,19 @@ def main(tier, replay=None):
                                    "differs from the unique CRT value in [0, prod)")
             elif kind == "cra":
                 M, D, A, e = c["M"], c["D"], c["A"], c["e"]
-                r = int(il)
+                r, rcopy = [int(x) for x in il.split()]
                 chk.count((kind, c["sub"], c["red"], M, D, A, e), nontrivial=(M > 1 and e != A % D))
                 cong = (r - A) % M == 0 and (r - e) % D == 0
                 site = SITE_CRA if c["red"] else "ChineseRemainder<Ring,Domain,false>::operator()"
-                if not cong:
+                if rcopy != r:
+                    spec_ok = False
+                    chk.fail_input(site, "copy of the functor answers differently", c, r, il, "a copy of the functor (original destroyed) gives another value")
+                elif not cong:
                     spec_ok = False
                     chk.fail_input(site, "wrong residue", c, "res == A (mod M), res == e (mod D)", il, "the lifted value has wrong residues")
                 elif c["red"] and 0 <= A < M:
                     V = crt_oracle([M, D], [A, e])
-                    exp_toks = [str(V)]
+                    exp_toks = [str(V), str(V)]
                     if r != V:
                         spec_ok = False
                         chk.fail_input(SITE_CRA, KLASS_CRA, c, V, il, "congruent to the CRT value but not the unique integer in [0, M*D)")
